@@ -575,6 +575,10 @@ class Compiler:
             if len(right.columns) != 1:
                 raise CompilationError('subquery has too many columns', node.right)
             right = EvalConstantSubquery1D(right)
+        elif right.dtype is not object and not issubclass(right.dtype, (list, set, dict)):
+            raise CompilationError(
+                f'operator "{type(node).__name__.lower()}('
+                f'{types.name(left.dtype)}, {types.name(right.dtype)})" not supported', node)
 
         op = OPERATORS[type(node)][0]
         return op(left, right)
